@@ -80,6 +80,18 @@ DIRECTED = [
 def run(ctx, log):
     # the same small programs at every size around the widths the implementation encodes things in (closed-form results)
     progcheck.run_scale(ctx, log, ['constants', 'locals'])
+    # global or local placement is unobservable also where the documentation is silent (a name read in its own
+    # initialiser, redeclaration that mentions the old variable): the same statements at top level and as a function body
+    bodies = ["stel teller = 1; stel teller = teller + 1; teller", "stel t = 1; als ja { stel t = t * 10; t }", "stel y = y; type(y)", "stel a = 2; stel b = a + a; stel a = a * b; [a, b]",
+              "stel v = 3; als ja { stel v = v + 1; v } anders { 0 }", "stel i = 0; stel r = 0; zolang i < 2 { i += 1; stel i2 = i2; r = type(i2) }; r", "stel q = 1; stel q = [q, q]; q",
+              "stel m = 5; stel m = m; m", "stel n = 5; als ja { stel n = n; type(n) }", "stel w = 1; stel w = als w == 1 { 10 } anders { 20 }; w", "stel z = 4; stel z = -z; z", "stel s = \"a\"; stel s = lengte(s); s"]
+    tops = vlib.nlh("eval", ["20000 " + vlib.hexs(b) for b in bodies], tag="c10p")
+    wraps = vlib.nlh("eval", ["20000 " + vlib.hexs("functie hoofd_() { %s } hoofd_()" % b) for b in bodies], tag="c10pw")
+    for b, t, w in zip(bodies, tops, wraps):
+        ctx.seen(("placement", b))
+        ctx.count("variant:placement-of-self-initialisers")
+        if progcheck.visible(t) != progcheck.visible(w):
+            ctx.violate("the same statements behave differently at top level and as the body of a function", source="functie hoofd_() { %s } hoofd_()" % b, original=b, observed=progcheck.visible(w)[:300], expected=progcheck.visible(t)[:300])
     rng = ctx.rng
     n = 300 if ctx.quick else 5000
     srcs_a, asts_a = progcheck.gen_sources(ctx, n, max_depth=3, funcs=False)
@@ -162,3 +174,7 @@ def run(ctx, log):
 
 def replay(ctx, data, log):
     progcheck.replay_source(ctx, data, log, budget=40000)
+
+
+def search(ctx, log):
+    progcheck.search_programs(ctx, log, n=4000 if ctx.quick else 40000)
